@@ -4,6 +4,7 @@ listed property (the listed properties do not state these behaviours)."""
 import numpy as np
 
 from harness import par
+from harness import enums
 
 
 def _kneedle_line(b):
@@ -143,7 +144,7 @@ def _variant_record(item):
         if not ok:
             return case
         e["out"] = c08._ints(k2)
-        ok, k3, e = stage("cluster", pp.filter_clusters, (PR, k2, getattr(clustering, cfg["linkage"]), cfg["t"], kr.ClusterRanking(cfg["mode"])))
+        ok, k3, e = stage("cluster", pp.filter_clusters, (PR, k2, getattr(clustering, cfg["linkage"]), cfg["t"], enums.pick(kr.ClusterRanking, cfg["mode"])))
         if not ok:
             return case
         e["out"] = c08._ints(k3)
